@@ -5,6 +5,7 @@ cd /repo || exit 2
 if [ -n "$(git status --porcelain --untracked-files=no)" ]; then echo "repo not clean"; exit 2; fi
 git apply "$patch" || { echo "patch does not apply"; exit 2; }
 cd /verif
+rm -rf work/evidence.bak && cp -r evidence work/evidence.bak   # runs against a changed tree must not leave their evidence behind
 for p in "$@"; do
   out=$(./check $p --tier $tier 2>&1)
   rc=$?
@@ -19,6 +20,7 @@ for k in ('kind','case','spec_verdict','no_longer_checks'):
 "; fi
 done
 git -C /repo checkout -- .
+rm -rf /verif/evidence && mv /verif/work/evidence.bak /verif/evidence
 # restore the generated tables and proofs for the clean tree
 cd /verif/harness && cargo build --offline 2>&1 | tail -1
 cd /verif && harness/target/debug/fqv dump-tables > work/tables.json && python3 tools/gen_tables.py work/tables.json lean/FastQr/Gen
